@@ -38,7 +38,7 @@ pub fn generate(rng: &mut Rng, tier: Tier, stats: &mut GenStats) -> Scenario {
             let (mut expr, mut rooted) = ("**".to_string(), false);
             for _ in 0..6 {
                 let (e, r) = g.walk_glob(&model, &base, if model.is_dir_node(&base) { 2 } else { 0 }, true, &mut stats.rejections);
-                if !prefix_touches_link(&model, &base, &e, r) {
+                if link == Link::ReadTarget || !prefix_touches_link(&model, &base, &e, r) {
                     expr = e;
                     rooted = r;
                     break;
